@@ -37,7 +37,10 @@ class HarnessError(Exception):
 
 # ---------------------------------------------------------------- floats on the wire
 def f2h(x: float) -> str:
-    return struct.pack(">d", float(x)).hex()
+    x = float(x)
+    if x != x:
+        return "7ff8000000000000"      # one NaN: sign and payload are not observable behaviour (Lean's Float.toBits canonicalises too)
+    return struct.pack(">d", x).hex()
 
 
 def h2f(h: str) -> float:
